@@ -197,6 +197,17 @@ def gen(tier, rng):
                     main.append(mk("print", b, sfx=s))
                 main.append({"k": "call"})
                 progs.append(("deftype", build(d, main, [mk("print", b, sfx="")])))
+    # a later DEFtype statement takes letters back from an earlier one (every pair of types, DEFSNG included): the last
+    # statement that covers a letter decides
+    for t1 in TYPES:
+        for t2 in TYPES:
+            if t1 == t2:
+                continue
+            for (lo2, hi2) in ((65, 67), (65, 65), (77, 90)):
+                d = [{"t": t1, "lo": 65, "hi": 90}, {"t": t2, "lo": lo2, "hi": hi2}]
+                for b in ("A", "B", "M"):
+                    main = [mk("let", b, sfx=""), mk("print", b, sfx="")] + [mk("print", b, sfx=s) for s in SFX] + [{"k": "call"}]
+                    progs.append(("deftype-override", build(d, main, [mk("let", b, sfx=""), mk("print", b, sfx=""), mk("print", b, sfx=t2)])))
     # DEFtype statements in the middle of the main module: they govern the names that follow them, and the SUB
     for t in TYPES:
         for t0 in [None] + [x for x in TYPES if x != t][:2]:
